@@ -14,7 +14,7 @@ ASSUMPTIONS = ["penalties are dyadic rationals: float arithmetic of the implemen
 
 
 def budget(tier):
-    return 1500 if tier == "quick" else 30000
+    return 8000 if tier == "quick" else 80000
 
 
 def gen(rng, index, tier):
